@@ -324,10 +324,27 @@ def run(tier, replay=None):
         recs += psprops.monitor_records(sp, sem[sp["name"].split("#")[0]], r_)
     cbad, ctlc = psprops.run_monitor(recs)
     cby = {sp["name"]: (sp, r_) for sp, r_ in zip(cspecs, cres)}
+    rechecked = {}
     for b in cbad:
         if b["prop"] != "C12":
             continue
         sp, r_ = cby[b["run"]]
+        if sp.get("restart"):
+            # after the restart the goroutines of the runtime that "exited" are still in this
+            # process (a real mrp takes them with it); under heavy load one of them has been seen
+            # to submit a job late.  A violation in a restarted run is reported if the same run,
+            # repeated alone three times, shows it again at least once
+            if sp["name"] not in rechecked:
+                a_specs = [dict(sp, name=sp["name"] + "#again%d" % k_) for k_ in range(3)]
+                a_res = psrun.run_specs(a_specs, nproc=3)
+                a_recs = []
+                for as_, ar_ in zip(a_specs, a_res):
+                    a_recs += psprops.monitor_records(as_, sem[sp["name"].split("#")[0]], ar_)
+                a_bad, _ = psprops.run_monitor(a_recs)
+                rechecked[sp["name"]] = any(x["prop"] == "C12" for x in a_bad)
+            if not rechecked[sp["name"]]:
+                print("NOTE the restarted run %s exceeded the limit in the batch (%s) and in none of three repetitions alone: not reported" % (sp["name"], b["what"][:80]))
+                continue
         viols.append({"key": "maxjobs:%s:%s" % (sp["name"].split("#")[0], "restart" if sp.get("restart") else "run"),
                       "what": "cluster mode, --maxjobs=%d%s: %s (program %s)" % (
                           sp["maxjobs"], ", after mrp was restarted" if sp.get("restart") else "", b["what"], sp["name"]),
